@@ -131,6 +131,12 @@ class Instantiator:
             return self.taken(t[1], c) | self.elem(t[3][0], c)
         if t[0] == "upd" and t[2] == "extend":
             return self.taken(t[1], c) | self.elem(t[3][0], c)
+        if t[0] == "upd" and t[2] == "push":
+            return self.taken(t[1], c) | self.elem(t[3][0], c)
+        if t[0] == "call" and t[1] == "Iterator::chain" and len(t[2]) == 2:
+            return self.taken(t[2][0], c) | self.taken(t[2][1], c)
+        if t[0] == "call" and t[1] == "iter::once" and len(t[2]) == 1:
+            return self.elem(t[2][0], c)
         if t[0] == "call" and t[1] in ("IndexSet::new", "Vec::new"):
             return set()
         raise AnalysisGap("taken-set expression %r" % (t[:2],))
